@@ -54,6 +54,7 @@ Inductive case :=
         (tip : Z)                  (* height of the honest peers *)
         (peers : list (Z * N * bool * bool))
         (* peer, script (0 honest, otherwise a liar), stopped?, a bad answer of it was used in a pair the node processed? *)
+        (nbad : Z)                 (* number of bad answers that entered a requester *)
         (switched : bool)          (* the node called SwitchToConsensus before the deadline *)
         (handover : N)             (* consensus.NewState on what was stored: 0 ok, 1 panic, 2 not run *)
         (seen_class : N)           (* the seen commit of the last stored block: 0 all slots genuine,
@@ -92,9 +93,9 @@ Fixpoint foreign_addr (vs : list validator) (sigs : list (commitsig isig)) : boo
   end.
 
 Definition rq_view (pl : pool isig) (h : Z) : Z * bool :=
-  match req_at isig pl h with
+  match req_at pl h with
   | None => (-1, false)
-  | Some r => (rq_peer isig r, match rq_block isig r with Some _ => true | None => false end)
+  | Some r => (rq_peer r, match rq_block r with Some _ => true | None => false end)
   end.
 
 (* ------------------------------------------------------------------ CStep *)
@@ -125,12 +126,12 @@ Definition check_step vals chain st_h (first : Z * Z * bool) canon (cm : Z * Z *
        p_max_peer_height := fh + 1; p_num_pending := 0; p_errors := [] |} in
   let n0 : nd := {| n_state := st; n_store := []; n_pool := pl; n_stopped := []; n_log := [];
                     n_panicked := false |} in
-  let n1 := process_step isig (fun _ _ => vok) (fun _ _ => Some (vs, 0))
+  let n1 := process_step (fun _ _ => vok) (fun _ _ => Some (vs, 0))
                          (verify_commit ideal_verify) n0 in
-  let m_saved := match n_store isig n1 with e :: _ => (se_height isig e =? fh) && (se_id isig e =? fid) | [] => false end in
+  let m_saved := match n_store n1 with e :: _ => (se_height e =? fh) && (se_id e =? fid) | [] => false end in
   let m_ho : N := if m_saved
-                  then (if handover isig ideal_verify pk_addr_i n1 then 0%N else 1%N) else 2%N in
-  let m_ctv : N := match commit_to_voteset isig ideal_verify pk_addr_i chain c vs with
+                  then (if handover ideal_verify pk_addr_i n1 then 0%N else 1%N) else 2%N in
+  let m_ctv : N := match commit_to_voteset ideal_verify pk_addr_i chain c vs with
                    | None => 2%N
                    | Some v => match vs_maj23 v with Some _ => 0%N | None => 1%N end
                    end in
@@ -160,9 +161,9 @@ Definition check_step vals chain st_h (first : Z * Z * bool) canon (cm : Z * Z *
     mism (rest_eqb (res_code (verify_commit ideal_verify vs chain fid fh c)) rf) 12;
     mism (m_ctv =? ctv)%N 13;
     mism (Bool.eqb m_saved saved) 14;
-    mism (p_height isig (n_pool isig n1) =? ph) 15;
-    mism (zlist_eqb (sort_z (n_stopped isig n1)) stopped) 16;
-    mism (zb_eqb (rq_view (n_pool isig n1) fh) rq1 && zb_eqb (rq_view (n_pool isig n1) (fh + 1)) rq2) 17;
+    mism (p_height (n_pool n1) =? ph) 15;
+    mism (zlist_eqb (sort_z (n_stopped n1)) stopped) 16;
+    mism (zb_eqb (rq_view (n_pool n1) fh) rq1 && zb_eqb (rq_view (n_pool n1) (fh + 1)) rq2) 17;
     mism (m_ho =? ho)%N 18 ].
 
 (* ------------------------------------------------------------------ CScen (monitors only) *)
@@ -175,16 +176,22 @@ Fixpoint is_prefix (a b : list Z) : bool :=
   end.
 
 Definition check_scen (canon : list Z) (start : Z) (stored : list Z) (tip : Z)
-           (peers : list (Z * N * bool * bool)) (switched : bool) (ho seen_class : N) : list verdict :=
-  let honest := existsb (fun x => let '(_, k, st, _) := x in (k =? 0)%N) peers in
+           (peers : list (Z * N * bool * bool)) (nbad : Z) (switched : bool) (ho seen_class : N) : list verdict :=
+  let honest_left := existsb (fun x => let '(_, k, st, _) := x in (k =? 0)%N && negb st) peers in
+  let honest_stopped := Z.of_nat (List.length (filter (fun x => let '(_, k, st, _) := x in (k =? 0)%N && st) peers)) in
   [ (* clause 2: everything stored is the canonical chain *)
     viol (is_prefix stored canon) 2;
     (* clause 6: a peer whose bad answer was part of a processed pair is stopped *)
     viol (forallb (fun x => let '(_, k, st, used) := x in negb used || st) peers) 6;
-    (* clause 7: an honest peer is never stopped for error *)
-    viol (forallb (fun x => let '(_, k, st, _) := x in negb (k =? 0)%N || negb st) peers) 7;
-    (* clause 8: with an honest peer the node stores every block below the tip and switches *)
-    viol (negb honest || (switched && (Z.of_nat (List.length stored) >=? tip - 1))) 8;
+    (* clause 7: when every peer is honest nobody is stopped *)
+    viol (existsb (fun x => let '(_, k, _, _) := x in negb (k =? 0)%N) peers
+          || forallb (fun x => let '(_, _, st, _) := x in negb st) peers) 7;
+    (* clause 8: while an honest peer is still connected the node stores every block below the
+       tip and switches to consensus *)
+    viol (negb honest_left || (switched && (Z.of_nat (List.length stored) >=? tip - 1))) 8;
+    (* clause 10: every rejected pair costs at most one honest peer (the supplier of the other
+       block of the pair): no more honest peers are stopped than bad answers were taken *)
+    viol (honest_stopped <=? nbad) 10;
     (* clause 5: what was stored lets consensus start *)
     (if negb (ho =? 1)%N then V_ok
      else if (seen_class =? 1)%N then V_known 31 else V_violation 5) ].
@@ -197,13 +204,13 @@ Definition pblock (h bid : Z) : blk :=
 
 Definition pool_op (pl : pool isig) (o : pop) : pool isig :=
   match o with
-  | PStatus p base height => set_peer_range isig pl p base height
-  | PMake => make_next_requester isig pl
-  | PPick h p => if p =? 0 then pl else assign isig pl h p
-  | PBlock p h bid => add_block isig pl p (pblock h bid)
-  | PRemove p => remove_peer isig pl p
-  | PRedo h => match redo_request isig pl h with Some (pl', _) => pl' | None => pl end
-  | PPop => match pop_request isig pl with Some pl' => pl' | None => pl end
+  | PStatus p base height => set_peer_range pl p base height
+  | PMake => make_next_requester pl
+  | PPick h p => if p =? 0 then pl else assign pl h p
+  | PBlock p h bid => add_block pl p (pblock h bid)
+  | PRemove p => remove_peer pl p
+  | PRedo h => match redo_request pl h with Some (pl', _) => pl' | None => pl end
+  | PPop => match pop_request pl with Some pl' => pl' | None => pl end
   end.
 
 (* a pick answered by the real pool must be an eligible peer of the pool; a nil answer means
@@ -211,8 +218,8 @@ Definition pool_op (pl : pool isig) (o : pop) : pool isig :=
 Definition pick_ok (pl : pool isig) (o : pop) : bool :=
   match o with
   | PPick h p =>
-    if p =? 0 then negb (existsb (eligible h) (p_peers isig pl))
-    else match find_peer (p_peers isig pl) p with Some x => eligible h x | None => false end
+    if p =? 0 then negb (existsb (eligible h) (p_peers pl))
+    else match find_peer (p_peers pl) p with Some x => eligible h x | None => false end
   | _ => true
   end.
 
@@ -244,28 +251,28 @@ Definition zz_eqb (a b : Z * Z) : bool := (fst a =? fst b) && (snd a =? snd b).
 Definition check_pool (start : Z) (ops : list pop) (snap : psnap) : list verdict :=
   let '(h, maxh, np, reqs, peers, errs, caught) := snap in
   let '(pl, picks_ok) := pool_run (new_pool isig start) ops true in
-  let m_reqs := map (fun r => (rq_peer isig r, match rq_block isig r with Some b => b_id isig b | None => -1 end))
-                    (p_reqs isig pl) in
+  let m_reqs := map (fun r => (rq_peer r, match rq_block r with Some b => b_id b | None => -1 end))
+                    (p_reqs pl) in
   let m_peers := fold_right insert_peer []
-                   (map (fun x => (bp_id x, bp_base x, bp_height x, bp_pending x)) (p_peers isig pl)) in
+                   (map (fun x => (bp_id x, bp_base x, bp_height x, bp_pending x)) (p_peers pl)) in
   [ (* clause 9: a block is only ever held by the requester of its own height and comes from
        the peer the request was assigned to — evaluated on the implementation's snapshot:
        every requester that holds a block has a peer *)
     viol (forallb (fun r => (snd r =? -1) || negb (fst r =? 0)) reqs) 9;
     mism picks_ok 21;
-    mism (p_height isig pl =? h) 22;
-    mism (p_max_peer_height isig pl =? maxh) 23;
-    mism (p_num_pending isig pl =? np) 24;
+    mism (p_height pl =? h) 22;
+    mism (p_max_peer_height pl =? maxh) 23;
+    mism (p_num_pending pl =? np) 24;
     mism (list_eqb zz_eqb m_reqs reqs) 25;
     mism (list_eqb peer_eqb m_peers peers) 26;
-    mism (zlist_eqb (rev (p_errors isig pl)) errs) 27;
-    mism (Bool.eqb (is_caught_up isig pl true) caught) 28 ].
+    mism (zlist_eqb (rev (p_errors pl)) errs) 27;
+    mism (Bool.eqb (is_caught_up pl true) caught) 28 ].
 
 Definition check (c : case) : verdict :=
   match c with
   | CStep vals chain st_h first canon cm base sigs p1 p2 comp obs =>
     first_of (check_step vals chain st_h first canon cm base sigs p1 p2 comp obs)
-  | CScen canon start stored tip peers switched ho sc =>
-    first_of (check_scen canon start stored tip peers switched ho sc)
+  | CScen canon start stored tip peers nbad switched ho sc =>
+    first_of (check_scen canon start stored tip peers nbad switched ho sc)
   | CPool start ops snap => first_of (check_pool start ops snap)
   end.
